@@ -109,6 +109,8 @@ def run(tier):
             for name, S in subsets:
                 dbg_cases.append({"id": "p%d/%s" % (i, name), "src": src, "hook": "dap", "breakpoints": S, "dialect": "internal", "evaluate": "1 + 1" if name == "bp_sub" else None})
                 meta["p%d/%s" % (i, name)] = set(S)
+            nlines = src.count("\n") + 1
+            dbg_cases.append({"id": "p%d/bp_every_line" % i, "src": src, "hook": "dap", "breakpoints": list(range(1, nlines + 1)), "dialect": "internal", "max_stops": 20000})
             dbg_cases.append({"id": "p%d/bp_cond_true" % i, "src": src, "hook": "dap", "breakpoints": [[l, "1 == 1"] for l in ml], "dialect": "internal"})
             meta["p%d/bp_cond_true" % i] = set(ml)
             dbg_cases.append({"id": "p%d/bp_cond_false" % i, "src": src, "hook": "dap", "breakpoints": [[l, "1 == 2"] for l in ml], "dialect": "internal"})
@@ -173,6 +175,31 @@ def run(tier):
                                     rep.violation("c18:stmt-hook-count:%d" % min(cnt, 3), "[%s] %s: statement hook fired %d times before the statement at line %d executed" % (flavor, cid, cnt, L), wit)
                                 break
                             pending = []
+                    continue
+                if cfgname == "bp_every_line":
+                    # a breakpoint on every line: per line, the number of stops equals the number of times the statement
+                    # hook fired for a statement beginning on that line in the no-op hook run of the same program
+                    hook = b2.events.get("p%d/noop" % i)
+                    if hook is None:
+                        continue
+                    from collections import Counter
+                    hc = Counter(e[1] for e in hook if e[0] == "stmt" and e[2] is False)
+                    stops = [e for e in evs if e[0] == "stops"]
+                    stops = stops[0][1] if stops else []
+                    sc = Counter(sp[1][0] if isinstance(sp[1], list) else None for sp in stops)
+                    resolved = [e for e in evs if e[0] == "resolved"]
+                    verified = set(l for l, v in (resolved[0][1] if resolved else []) if v)
+                    st["every_line_runs"] = st.get("every_line_runs", 0) + 1
+                    for L in sorted(set(hc) | set(sc)):
+                        if L not in verified:
+                            continue
+                        st["every_line_lines"] = st.get("every_line_lines", 0) + 1
+                        if hc.get(L, 0) != sc.get(L, 0):
+                            text = src.split("\n")[L - 1].strip() if isinstance(L, int) and 0 < L <= len(src.split("\n")) else "?"
+                            rep.violation("c18:breakpoint-count:%s" % re.sub(r"[0-9]+", "N", re.sub(r"\"[^\"]*\"", "S", text))[:50],
+                                          "[%s] %s: the statement on line %s (%s) was executed %d times (statement hook) but a breakpoint on that line stopped %d times" % (
+                                              flavor, cid, L, text[:80], hc.get(L, 0), sc.get(L, 0)), wit)
+                            break
                     continue
                 if not cfgname.startswith(("bp_", "step_")):
                     continue
@@ -269,6 +296,8 @@ def run(tier):
         "samples": samples,
         "programs": n,
         "profile_mode_runs": st["profiles"],
+        "every_line_breakpoint_runs": st.get("every_line_runs", 0),
+        "lines_with_stop_count_compared_to_hook_count": st.get("every_line_lines", 0),
         "breakpoint_runs": st["bp_runs"],
         "stepping_runs": st["step_runs"],
         "stops_observed": st["stops"],
